@@ -58,6 +58,15 @@ Theorem C13_build_locked : build_locked = true.
 Proof. reflexivity. Qed.
 Print Assumptions C13_build_locked.
 
+(** The life of a build script (read off executor.py and build_cmd.py on every run): _process_builds skips a script that was
+    built, refuses one that failed (the run fails immediately, FailedBuilding), and executes it otherwise; _execute_build_cmd marks
+    the script failed and fails the run before each of its two ways of raising FailedBuilding, and marks it built as its last
+    statement; the two marks are set by these methods only and never reset.  This is the build state of Model.Machine
+    (never built / built / failed) on which C13_once and C13_failure_propagates are proved. *)
+Theorem C13_build_life_cycle : process_builds_shape = true /\ build_marks_shape = true.
+Proof. split; reflexivity. Qed.
+Print Assumptions C13_build_life_cycle.
+
 (** One call of Executor.execute_run (read off the source on every run, statement by statement; any other
     statement makes the translation fail): adapter (stop without one), command line, plan mode, termination
     check, THEN the builds - whenever the run is not finished and builds are enabled, whatever its progress -,
